@@ -2,7 +2,7 @@
 import ast
 
 from ..model import AnalysisError, dotted, unparse
-from ..util import U, enum_paths, walk_no_nested, is_yield_call, Yields
+from ..util import FACTS, FACTS_I, U, enum_paths, walk_no_nested, is_yield_call, Yields
 from ..paths import call_attr, call_name
 
 H = 'scales/loadbalancer/heap.py'
@@ -10,7 +10,7 @@ A = 'scales/loadbalancer/aperture.py'
 
 
 def facts(ev, upto=None):
-  return [(U(e.node).replace(' ', ''), e.info) for e in (ev if upto is None else ev[:upto]) if e.kind == 'cond']
+  return FACTS(ev if upto is None else ev[:upto])
 
 
 def heap_calls(ev):
